@@ -77,7 +77,16 @@ def run(ctx):
         bb = b if b is not None else fit.bounds
         if not (bb.M[0] <= fit.M_ <= bb.M[1] and bb.tau[0] <= fit.tau_ <= bb.tau[1]):
             bad("fitted M / tau lie outside the configured bounds", dict(**inp, bounds=dict(M=list(bb.M), tau=list(bb.tau))), dict(M=float(fit.M_), tau=float(fit.tau_)))
-        if not (dom.relclose(fit.M_, M, 2e-3) and dom.relclose(fit.tau_, tau, 2e-3)):  # optimiser tolerance, not rounding
+        # optimiser tolerance, not rounding.  On windows that barely reach boundary-dominated flow M and tau trade off along
+        # a flat valley and curve_fit (default tolerances, finite-difference Jacobian across the kinks of an interpolated
+        # curve) can stop up to ~3e-3 away while reproducing the data to 3e-4 of their maximum (1 case in ~300, DESIGN
+        # 11.9): accept up to 1e-2 when the fitted curve is indistinguishable from the data.
+        yh = np.asarray(f.forecast_cum(tt, fit.M_, fit.tau_), float)
+        misfit = float(np.abs(yh - y).max() / y.max())
+        close = dom.relclose(fit.M_, M, 2e-3) and dom.relclose(fit.tau_, tau, 2e-3)
+        if not close and misfit <= 1e-3:
+            close = dom.relclose(fit.M_, M, 1e-2) and dom.relclose(fit.tau_, tau, 1e-2)
+        if not close:
             bad("fitting noise-free production generated from the same curve does not recover M and tau", dict(**inp, window_end_over_tau=end / tau, samples=len(tt), bounds=kind),
                 dict(M=float(fit.M_), tau=float(fit.tau_)))
         # ---------------- supplied tau: returned unchanged, M the bounded least-squares optimum
